@@ -336,6 +336,11 @@ def loop_sections(S: Sources, loop_invariant: list, inserts: list, spec_text: st
     secs.append(ghost("trusted derived Default", """
 pub assume_specification[ <FineDuration as core::default::Default>::default ]() -> (r: FineDuration)
     ensures r.picos == 0,
+;
+// std functions a tidy-up of the loop is likely to use (not used by the current text)
+pub assume_specification<T> [bool::then_some] (b: bool, t: T) -> (r: Option<T>)
+    where T: core::marker::Destruct,
+    ensures r == (if b { Some(t) } else { None::<T> }),
 ;""", kind="trusted"))
     f_zero = fd.find_fn("is_zero", impl=r"impl FineDuration\b")
     f_clamp = fd.find_fn("clamp_to", impl=r"impl FineDuration\b")
